@@ -1,7 +1,8 @@
 (** C19 -- property file.  Contains only: instantiation lemmas on the definitions regenerated from
     /repo's and the installed PySpark's sources (Gen.C19Sf / Gen.C19Ps), the full statement, what is
-    proved (closed by [exact] of a generic theorem), what is refuted, non-vacuity examples,
-    and Print Assumptions. *)
+    proved (closed by [exact] of a generic theorem), non-vacuity examples, and Print Assumptions.
+    What is refuted of the full statement is in C19_refuted.v (compiled separately: it stops holding, and must
+    not raise an alarm, on the day sqlframe removes the deviation). *)
 From Coq Require Import ZArith String List Bool PrimFloat.
 From SF Require Import C19.PyVal C19.Script.
 From Gen Require Import C19Sf C19Ps.
@@ -25,13 +26,14 @@ Proof.
     cbn [row_body_sf row_body_ps m_new m_create_row m_call m_asDict m_conv m_contains m_getitem
          m_getattr m_setattr m_reduce m_repr]; intros.
   all: try solve [cong R].
-  - (* __new__ *)
-    repeat match goal with
-           | |- (if ?c then _ else _) = (if ?c then _ else _) => destruct c; [try reflexivity | try reflexivity]
-           end.
-    cbn [dict_values bind]. dec_id H. cbn [bind py_list py_tuple as_iter]. cong R.
-  - (* _create_row *)
-    cbn [bind]. dec_id H. cbn [bind py_list py_tuple as_iter]. cong R.
+  (* __new__ / _create_row: the Decimal->float comprehension is the identity when no Decimal is placed
+     directly into the Row (hypothesis of these two clauses of [rel]) *)
+  all: repeat match goal with
+              | |- (if ?c then _ else _) = (if ?c then _ else _) => destruct c; [try reflexivity | try reflexivity]
+              end;
+       cbn [dict_values bind];
+       match goal with H : no_top_dec _ = true |- _ => try dec_id H end;
+       cbn [bind py_list py_tuple as_iter]; cong R.
 Qed.
 
 (** every helper of sqlframe.testing.utils is the same function as PySpark's *)
@@ -129,31 +131,3 @@ Example C19_helper_rejects_outside_tolerance :
      (VList [row_a (VFloat 0x1.1p+0 "1.0625")]) (VBool false) f1e5 f1e8 = Raise ERowsDiffer.
 Proof. vm_compute. reflexivity. Qed.
 
-(* ---- refutation of the full statement (a genuine deviation of sqlframe) ----------------------------- *)
-
-Definition dec15 : pyval := VDec "Decimal('1.5')" 0x1.8p+0 "1.5".
-
-(** Row(x=Decimal('1.5')): sqlframe stores float 1.5, PySpark keeps the Decimal *)
-Theorem C19_refuted_decimal :
-  exists n k s, run false (Rsf n) k s <> run false (Rps n) k s.
-Proof.
-  exists 10%nat, 10%nat, (SNew [] [("x", SLit dec15)]).
-  vm_compute. intro H. discriminate H.
-Qed.
-Print Assumptions C19_refuted_decimal.
-
-(** consequence for the helper, with each library building its own rows: Decimal('1.000001') against
-    1.0 is accepted by sqlframe (two floats within rtol) and rejected by PySpark (Decimal != float) *)
-Definition dec1000001 : pyval := VDec "Decimal('1.000001')" 0x1.000010c6f7a0bp+0 "1.000001".
-Definition rows_of (o : out) : pyval := match o with OVal v => VList [v] | _ => VList [] end.
-
-Theorem C19_refuted_decimal_verdict :
-  exists n s1 s2,
-    c_assertDataFrameEqual (Csf n n) (rows_of (run false (Rsf n) n s1)) (rows_of (run false (Rsf n) n s2))
-        (VBool false) f1e5 f1e8
-    <> c_assertDataFrameEqual (Cps n n) (rows_of (run false (Rps n) n s1)) (rows_of (run false (Rps n) n s2))
-        (VBool false) f1e5 f1e8.
-Proof.
-  exists 12%nat, (SNew [] [("x", SLit dec1000001)]), (SNew [] [("x", SLit (VFloat 1 "1.0"))]).
-  vm_compute. intro H. discriminate H.
-Qed.
